@@ -215,3 +215,8 @@ def run(ctx, R):
                     arena.add(rn.rsplit("::", 1)[1])
     R.ob("C05:consumer:Number::try_from(cell)", {"Fixnum", "Cons", "F64Offset"} <= tags and {"Integer", "Rational"} <= arena,
          "reads tags %s / arena kinds %s" % (sorted(tags), sorted(arena)), F.where(tf[0]))
+    # --- (c) the two index keys of one integer ----------------------------------------------------------
+    # a clause whose first argument is an integer with two spellings is entered under both keys; each key's
+    # choice sequence must be continued according to its OWN length (rule shared with C06)
+    from .c06 import first_entry_flags
+    first_entry_flags(F, R, prefix="C05", only="::index_constant")
